@@ -54,6 +54,23 @@ CHECKS = {
             "Table files are the specification; the non-increasing stretch of si.nff is excluded; physical constants are "
             "written out independently (CODATA 2006 as documented).",
             "DESIGN.md section 4 C05"),
+    "C14": ("every activation.dat row x Hypothesis-generated environments against a 120-digit decimal closed-form reference, "
+            "with a forward-error-bound classifier; metamorphic relations; generated sample formulas",
+            "All 513 reaction rows are evaluated in generated flux/Cd/fast/exposure/rest/mass environments and compared "
+            "(rel 1e-9) with the exact chain solution computed in decimal from an independently read activation.dat; "
+            "errors are classified by a kappa bound of the branch's own operations (cancellation vs wrong value); mass "
+            "proportionality, exposure monotonicity, 2^(-t/T) rest decay, fast/epithermal omission and abundance-weighted "
+            "element sums are checked as relations.",
+            "decimal arithmetic and the documented unit constants are trusted; two recorded findings (2n and b branch "
+            "cancellation within 64*eps*kappa) are excluded by bucket, anything beyond the bound is still a violation.",
+            "DESIGN.md section 4 C14"),
+    "C15": ("Hypothesis search over samples, rest-time lists and targets against a decimal re-computation of the summed "
+            "decay from the activities at removal; outcome-class independence across rest-time lists",
+            "decay_time must return t>=0 with summed activity within 0.1% of the target, 0 iff the activity at removal is at or "
+            "below target, RuntimeError otherwise (counted inconclusive), and the same outcome for three different rest-time "
+            "lists of the same sample.",
+            "Truth = activities at removal of a [0] rest-time run of the same sample, decayed in decimal.",
+            "DESIGN.md section 4 C15"),
 }
 
 PENDING = {}
